@@ -1,4 +1,5 @@
 import Gtree.Lemmas.SourceRefines
+import Gtree.Lemmas.HeapGrower
 import Gtree.Lemmas.Output
 /-
   C01 — text output obeys the tree-drawing rule (property theorems; helper lemmas live in Lemmas/).
@@ -120,3 +121,32 @@ theorem C01_branch_is_concatenation_in_the_source (n : Src.Node) (parts : List B
   setBranch_src n parts
 end Gtree
 
+
+namespace Gtree
+/-- Tie to the source, pointer code included (heap mode of /verif/translate, `Generated/SourceHeap.lean`, regenerated
+    on every run): the GROWER of simple_tree_grower.go — `grow`, `assemble`, `assembleBranch` with its walk up the
+    parent links, `assembleBranchDirectly/Indirectly/Finally` — and the methods of node.go it calls (`clean`,
+    `setBranch`, `setPath`, `path`, `branch`, `isRoot`, `isLastOfHierarchy` with its comparison of POINTERS) are
+    translated statement by statement over an explicit heap.  For every heap that holds a forest (names, levels,
+    parent links, child lists; all pointers different), every four branch strings, whatever stale branches and paths
+    the cells hold, and every fuel above `2·size + 1`: the translated `grow` returns no error, changes nothing but
+    the `brnch` fields of the forest's own nodes, and what the printers and the walker then read from the nodes
+    (name, branch, level, path, has-child, pre-order) is the model's `growRoot` of every root — so the rows are the
+    lines of the drawing rule (`specRoot`). -/
+theorem C01_grower_is_the_source (dg : SrcH.defaultGrowerSimple) (ts : List T) (h : SrcH.Heap) (rs : List Go.Ptr)
+    (fuel : Nat) (hr : SrcH.ReprRoots h ts rs) (hnd : (SrcH.ptrsKids h ts rs).Nodup)
+    (hf : 2 * sizeList ts + 1 ≤ fuel) (hv : dg.enabledValidation = false) :
+    ∃ h', SrcH.defaultGrowerSimple.grow fuel h dg rs = some (h', none) ∧
+      SrcH.SameShape h h' ∧ (∀ q, q ∉ SrcH.ptrsKids h ts rs → h' q = h q) ∧
+      SrcH.readKids h' ts rs 1 = ts.flatMap (growRoot (SrcH.fmtOf dg)) ∧
+      (SrcH.readKids h' ts rs 1).map Visit.row = ts.flatMap (specRoot (SrcH.fmtOf dg)) := by
+  obtain ⟨h', hrun, hrest⟩ := SrcH.grow_forest dg ts h rs fuel hr hnd hf
+  have he : SrcH.expErr dg (ts.flatMap (growRoot (SrcH.fmtOf dg))) = none := by simp [SrcH.expErr, hv]
+  rw [he] at hrun
+  obtain ⟨hs, hfr, hrd⟩ := hrest he
+  refine ⟨h', hrun, hs, hfr, hrd, ?_⟩
+  rw [hrd, List.map_flatMap]
+  congr 1
+  funext t
+  exact growRoot_rows (SrcH.fmtOf dg) t
+end Gtree
